@@ -217,6 +217,10 @@ fn run_schedule(spec: &Spec) -> (Duration, bool, String, bool) {
                 None => hostile_ok = false,
             }
         }
+        if !hostile_ok && running.done.is_finished() {
+            // not a harness problem: listen() has returned although nobody asked it to - nobody is served any more
+            return (Duration::ZERO, false, "listen() returned on its own while the hostile clients were connecting: the listener no longer accepts anybody".into(), true);
+        }
         // give the server the chance to pick the hostile connections up first
         tokio::time::sleep(Duration::from_millis(30)).await;
         // the well-behaved client: another peer and another announced source, so that a limiter refusal
